@@ -76,11 +76,20 @@ def build_source(src, scratch, name='src.sgy'):
             for t in range(nT):
                 hdrs[t].setdefault(1, t + 1)
                 hdrs[t].setdefault(21, 100 + t)
+                # source-receiver offset: segyio reads it as a third geometry axis when it varies
+                off = src.get('offset2d')
+                if off:
+                    hdrs[t][37] = {'vary': 100 + 25 * t, 'const': 1500, 'repeat': 100 + 50 * (t % 3), 'desc': 5000 - 10 * t}[off]
             gen.make_segy_traces(path, list(data), hdrs, dt_us=dt, t0=t0, fmt=src['fmt'], ext=src.get('ext', 0))
         else:
             cube3 = data[None, :, :] if how == 'single-inline' else data[:, None, :]
             il = np.array([src['il'][0]]) if how == 'single-inline' else src['il'][0] + abs(src['il'][1]) * np.arange(nT)
             xl = src['xl'][0] + abs(src['xl'][1]) * np.arange(nT) if how == 'single-inline' else np.array([src['xl'][0]])
+            off = src.get('offset2d')
+            if off:
+                tt = np.arange(nT)
+                hm = dict(hm)
+                hm[37] = {'vary': 100 + 25 * tt, 'const': 1500 + 0 * tt, 'repeat': 100 + 50 * (tt % 3), 'desc': 5000 - 10 * tt}[off]
             gen.make_segy(path, cube3, il, xl, dt_us=dt, t0=t0, fmt=src['fmt'], headers=hm, ext=src.get('ext', 0))
         out.update(ntraces=nT, hdr_classes=cls)
     else:
